@@ -110,6 +110,9 @@ func runSolver(s solverSpec, timeout int, file string) (string, float64, string)
 //  2. on anything but unsat: z3-new with default settings, z3 4.8.12 and cvc5 raced under the timeout;
 //  3. still undecided: status "unknown" (or "failed" if some solver said sat), candidate model kept for replay.
 func discharge(o *Obligation, dir string, timeout int, wantModel bool) {
+	if o.Expect == "preset" {
+		return // status decided by the translator
+	}
 	base := filepath.Join(dir, sanitize(o.Name))
 	f0 := base + ".nomb.smt2"
 	f1 := base + ".smt2"
